@@ -129,6 +129,7 @@ type lexer struct {
 
 // next returns the next rune in the input.
 func (l *lexer) next() rune {
+	verifLexStep(l)
 	if int(l.pos) >= len(l.input) {
 		l.width = 0
 		return eof
